@@ -41,6 +41,9 @@ var c01Whens = []string{
 	`{"a":{}}`,
 	`{"a":[]}`,
 	`{}`,
+	// a variable at one key and a further constraint behind it: the index walk has to
+	// continue from the variable branch whatever the event holds under that key
+	`{"a":"?v","b":"y"}`,
 }
 
 var c01Events = []string{
@@ -56,6 +59,8 @@ var c01Events = []string{
 	`{"a":{}}`,
 	`{"a":[]}`,
 	`{"c":"q"}`,
+	`{"a":[],"b":"y"}`,
+	`{"a":{},"b":"y"}`,
 }
 
 type c01op struct {
@@ -716,7 +721,7 @@ func init() {
 	lib.Register(&lib.Check{
 		ID:    "C01",
 		Level: "model_checking",
-		Rule: "explicit-state BFS over AddRule/RemRule/AddFact-over-rule-id/EnableRule/Clear/ProcessEvent sequences (ids r1,r2; 15 when-patterns hitting every PatternIndex node kind; 12 events) on {indexed,linear} x {no parent, r2 in parent}, every event dispatched and compared with the model in every reached state; " +
+		Rule: "explicit-state BFS over AddRule/RemRule/AddFact-over-rule-id/EnableRule/Clear/ProcessEvent sequences (ids r1,r2; 16 when-patterns hitting every PatternIndex node kind; 14 events) on {indexed,linear} x {no parent, r2 in parent}, every event dispatched and compared with the model in every reached state; " +
 			"plus all (when,event) pairs of a bounded grammar on fresh indexes/locations; non-trivial = distinct (configuration, event, non-empty expected dispatch) and distinct matching (pattern,event) pairs",
 		Assumptions: []string{
 			"core.Matches defines 'matches' (C05 decides the matcher)",
